@@ -12,6 +12,7 @@ import (
 	"fmt"
 	"hash/fnv"
 	"os"
+	"runtime"
 	"sort"
 	"strconv"
 	"sync"
@@ -261,7 +262,7 @@ func Check[C any](t *testing.T, s *Stats, name string, checks int, draw func(*ra
 		if err := json.Unmarshal(rc.Case, &c); err != nil {
 			t.Fatalf("replay case: %v", err)
 		}
-		if f := run(c); f != nil {
+		if f := guarded(run, c); f != nil {
 			emitFail(s.Property, name, f, c)
 			t.Errorf("replay %s: %v", name, f)
 		} else {
@@ -281,7 +282,7 @@ func Check[C any](t *testing.T, s *Stats, name string, checks int, draw func(*ra
 	ok := t.Run(name, func(t *testing.T) {
 		rapid.Check(t, func(rt *rapid.T) {
 			c := draw(rt)
-			if f := run(c); f != nil {
+			if f := guarded(run, c); f != nil {
 				mu.Lock()
 				lastC, lastF = c, f
 				mu.Unlock()
@@ -313,4 +314,17 @@ func Pinned[C any](t *testing.T, s *Stats, name string, cases map[string]C, run 
 			t.Errorf("pinned %s/%s: %v", name, k, f)
 		}
 	}
+}
+
+// guarded runs one case and turns a panic of the code under test (or of the oracle) into
+// a reported failure that carries the case.
+func guarded[C any](run func(C) *Failure, c C) (f *Failure) {
+	defer func() {
+		if p := recover(); p != nil {
+			buf := make([]byte, 4096)
+			n := runtime.Stack(buf, false)
+			f = &Failure{Sig: "panic", Msg: fmt.Sprintf("panic: %v\n%s", p, buf[:n])}
+		}
+	}()
+	return run(c)
 }
